@@ -51,6 +51,10 @@ class ShapeSpec:
         """Skolem: a world point assumed to be in the shape"""
         raise NotImplementedError
 
+    def not_member(self, cx, P, x, name="q"):
+        """x is NOT in the shape (for existentially defined shapes the quantified parameter is Skolemised here)"""
+        return cx.neg(self.member(cx, P, x))
+
     def direction(self, cx, P, name="d"):
         """a non-zero world direction (parameterised in the shape's frame where there is one)"""
         if self.has_pose:
@@ -70,6 +74,10 @@ class ShapeSpec:
     def hints(self, cx, P, d, x, res):
         """shape-specific proof steps (each is its own obligation) inserted before the extremality obligation"""
         return None
+
+    def aabb_hints(self, cx, P, k, x, bb):
+        """proof steps for the per-axis enclosure obligation; returns the list of fact-name prefixes to use"""
+        return ["orth:T:row%d%d" % (k, k), "def:", "skolem", "dom", "branch", "lemma", "proved"]
 
     def build(self, cx, P):
         K = cx.target(self.cls)
@@ -136,6 +144,16 @@ class CapsuleSpec(CylinderSpec):
         else:
             t = min(max(y[2], -0.5 * h), 0.5 * h)
         return spec.in_capsule_local(cx, y, P["r"], h, t)
+
+    def not_member(self, cx, P, x, name="q"):
+        # for EVERY axis parameter t in [-h/2, h/2] the point is farther than r from (0,0,t)
+        y = spec.to_local_point(cx, P["T"], x)
+        h = P["h"]
+        if sym(cx):
+            t = cx.real(name + "_t")
+            cx.assume((t <= 0.5 * h) & (t >= -0.5 * h), "skolem:%s_t on axis" % name)
+            return y[0] * y[0] + y[1] * y[1] + (y[2] - t) * (y[2] - t) > P["r"] * P["r"]
+        return cx.neg(self.member(cx, P, x))
 
     def any_local(self, cx, P, name):
         r, h = P["r"], P["h"]
